@@ -294,8 +294,34 @@ def parse_summary(ctx, v, led=None):
             led.ok("C04.semantic", ck, where, "%d representative vectors (valid, one-edit neighbours, prefix variants): class, stored fields and minor version as the grammar says; %d not decided" % (n_dec, n_unk))
         elif not bad:
             led.info("C04.semantic", ck, where, "%d of %d representative vectors not decided: the structural rules decide alone" % (n_unk, n_rep))
+    suppressed = []
+    if isinstance(sem, AnalysisError):
+        # neither interpretable nor recognised: the idiom rules the semantic analysis would
+        # arbitrate (stores, prefix, raw) know one way of writing the parser; their complaints
+        # do not decide code the interpreter could not follow (exit 2 instead of an alarm)
+        class _Undecidable(_IdiomArbitrated):
+            def violation(self_, rule, ck_, where_, what, **k):
+                if self_._covered(rule, ck_):
+                    suppressed.append((rule, what))
+                    return self_.led.info(rule, ck_, where_, "not recognised by the idiom rule (informational: the parse phase could not be interpreted either): " + what)
+                return self_.led.violation(rule, ck_, where_, what, **k)
+
+            def check(self_, cond, rule, ck_, where_, what, **k):
+                if not cond and self_._covered(rule, ck_):
+                    self_.violation(rule, ck_, where_, what)
+                    return False
+                return self_.led.check(cond, rule, ck_, where_, what, **k)
+
+        idiom_led = _Undecidable(led)
+    else:
+        idiom_led = _IdiomArbitrated(led) if clean else led
     try:
-        summ = _idiom_summary(ctx, v, _IdiomArbitrated(led) if clean else led)
+        summ = _idiom_summary(ctx, v, idiom_led)
+        if suppressed:
+            raise AnalysisError(
+                "C04.semantic",
+                "the parse phase of CVSS%d could not be interpreted (%s) and the idiom rules do not recognise it (%s)" % (v, sem.message, suppressed[0][0]),
+            )
         if clean and summ.get("model_gap"):
             sm = _semantic_summary(ctx, v)
             if not sm.get("model_gap"):
@@ -761,7 +787,19 @@ def _check_prefix(ctx, v, module, pv, summ, led, malformed):
                 elif len(a) == 1 and isinstance(a[0], ast.Tuple) and all(isinstance(x, ast.Constant) for x in a[0].elts):
                     lits.extend(x.value for x in a[0].elts)
                 else:
-                    raise AnalysisError("C04.prefix", "non-literal prefix test %s" % short(e), e, module)
+                    # a name bound to a constant string / tuple of strings at module level
+                    val_ = None
+                    if len(a) == 1:
+                        try:
+                            val_ = ctx.ce.eval(module, a[0], "C04.prefix")
+                        except AnalysisError:
+                            val_ = None
+                    if isinstance(val_, str):
+                        lits.append(val_)
+                    elif isinstance(val_, (list, tuple)) and val_ and all(isinstance(x, str) for x in val_):
+                        lits.extend(val_)
+                    else:
+                        raise AnalysisError("C04.prefix", "non-literal prefix test %s" % short(e), e, module)
             minor = None
             for b in body:
                 for n in ast.walk(b):
